@@ -338,7 +338,7 @@ func (e *oraEnv) norm(ev chain.M) chain.M {
 }
 
 // addrs: provider account names -> bech32 strings.  Names starting with "?" are
-// strings of the wrong kind (Oracle.tla ProvOf says what the code makes of them):
+// strings of the wrong kind (Oracle.tla ProvOf / BadProvs say what the code makes of them):
 // "?garbage" not an address, "?valoper" p1's address under the validator-operator
 // prefix, "?upper" p1's address in upper case (bech32 allows it), "?module" the
 // address of the service module's request escrow.
@@ -541,7 +541,7 @@ func (e *oraEnv) runBlock(begin chain.M, pending []chain.M, w *chain.TraceWriter
 			// member of a multi-message transaction that failed as a whole (chain.BundlePct):
 			// whatever it did was rolled back; the specification knows no such event and
 			// treats it as a rejection without effect
-			ev["name"] = "TxFailed"
+			ev["_orig"], ev["name"] = ev["name"], "TxFailed"
 		}
 		ev["ok"], ev["panic"] = r.OK, r.Panic
 		st := r.State.(chain.M)
@@ -792,11 +792,9 @@ func oddName(rng *rand.Rand, f string) string {
 	return strings.ToUpper(f[:1]) + f[1:]
 }
 
-// provider lists with strings of the wrong kind.  The first five never put the EMPTY address into a
-// stored request context; the last three can ("?garbage" / "?valoper" are no account addresses) and
-// are drawn only under cfg emptyprov=1: a context with provider "" makes every later genesis export
-// unimportable (findings/oraclerandom.md R7-3, a C12 matter), so the histories recorded for C11 / C12
-// (propdefs RECORD, no such flag) stay free of it.
+// provider lists with strings of the wrong kind ("?garbage" / "?valoper" are no account addresses:
+// refused since fix 8afa321, findings/oraclerandom.md R7-3; were one accepted again, the EMPTY address
+// it is stored as shows up as drift here and as refused genesis imports in C12).
 var oddProvLists = [][]any{{"?upper"}, {"?module", "p2"}, {"p2", "u2"}, {"p1", "?upper"}, {"p1", "p1"},
 	{"p1", "?garbage"}, {"?garbage", "?valoper"}, {"?valoper"}}
 
@@ -813,10 +811,7 @@ func oraRandom(fl *drv.Flags, rng *rand.Rand, w *chain.TraceWriter) {
 	names := []string{pairFeed, "fb", "FB", "fc"}
 	aggs := []string{"max", "min", "avg"}
 	everybody := e.accounts()
-	oddLists := oddProvLists[:5]
-	if fl.CfgInt("emptyprov", 0) == 1 {
-		oddLists = oddProvLists
-	}
+	oddLists := oddProvLists
 	for b := 0; b < fl.Len; b++ {
 		begin := oraEvent("BeginBlock", "", "")
 		begin["dt"] = int64(1 + rng.Intn(9))
@@ -1078,7 +1073,7 @@ func oraClock(fl *drv.Flags, w *chain.TraceWriter) error {
 		w.Write(oraEvent("BeginBlock", "", ""), res.BeginState)
 		for i, ev := range evs {
 			if res.Txs[i].Aborted {
-				ev["name"] = "TxFailed"
+				ev["_orig"], ev["name"] = ev["name"], "TxFailed"
 			}
 			ev["ok"], ev["panic"] = res.Txs[i].OK, res.Txs[i].Panic
 			w.Write(ev, res.Txs[i].State)
